@@ -41,7 +41,7 @@ def meshes():
 
 
 GEOS = [{"origin": [0.0, 0.0, 0.0], "dx0": [0.25, 0.25, 0.25]}, {"origin": [1.0, -2.0, 0.5], "dx0": [0.25, 0.5, 0.125]},
-        {"origin": [0.0, 0.0, 0.0], "dx0": [0.1, 0.3, 0.7]}]
+        {"origin": [0.0, 0.0, 0.0], "dx0": [0.1, 0.3, 0.7]}, dict(scope.FAR), dict(scope.MICRO)]
 TIMES = [1.6457727058794072e-11, 0.0, 2.0, 0.5]
 
 
@@ -82,7 +82,7 @@ def cases(tier, seed):
                 lays["gradp"][lvmax] = gl
                 lays["I_R"][lvmax] = named[(gi + 1) % len(named)]
                 d = dict(mesh)
-                d.update(GEOS[(k // 3) % 3])     # (factors rotate with different periods so that they do not correlate)
+                d.update(GEOS[(k // 3) % 5])     # (factors rotate with different periods so that they do not correlate)
                 d.update({"layouts": lays, "ghost": 1 + k % 3, "nspecies": 1 + (k // 2) % 3, "time": TIMES[(k // 5) % 4],
                           "seed": seed, "int_line": False})
                 opts = []
